@@ -189,8 +189,13 @@ class Model:
             verdict = "either"  # not stated whether a server tolerates other requests while binding
         elif self.st == B0:
             self.st = OP
+        if mid in self.out and self.kinds.get(mid) not in (None, kind):
+            # the peer reused the id of a request still in progress for a request of another kind: one open request whose
+            # matching response kind is no longer defined
+            self.kinds[mid] = "mixed"
+        else:
+            self.kinds[mid] = kind
         self.out.add(mid)
-        self.kinds[mid] = kind
         return verdict
 
     def recv_expect(self, lights):
